@@ -167,6 +167,24 @@ def conn_keepalive(rng):
     return {"kind": "conn", "device": dev, "log_size": 0, "threads": [ops], "pre_register": [1]}
 
 
+def small_scenarios():
+    """tiny sessions for the systematic (context-bounded, exhaustive) exploration: few scheduling decisions, every kind of life-cycle event"""
+    dev = {"type": "scripted", "latency": 0.03}
+    base = {"kind": "conn", "log_size": 0, "pre_register": [1], "final_wait": 0}
+    S = {}
+    S["traffic"] = dict(base, device=dict(dev), threads=[[["put", "MAIN", "VOL", "-30.0"], ["get", "SYS", "MODELNAME"], ["sleep", 0.35]]])
+    S["two-callers"] = dict(base, device=dict(dev), threads=[[["put", "MAIN", "A", "1"], ["get", "MAIN", "B"], ["join"], ["sleep", 0.45]],
+                                                             [["put", "ZONE2", "C", "2"], ["raw", "@ZONE2:D=3"]]])
+    S["link-drop"] = dict(base, device=dict(dev, drop_at=0.12), threads=[[["put", "MAIN", "A", "1"], ["put", "MAIN", "B", "2"], ["put", "MAIN", "C", "3"], ["sleep", 3.0], ["connected"]]])
+    S["close-in-callback"] = dict(base, device=dict(dev), callbacks={"1": [[["close"]]]}, threads=[[["put", "MAIN", "A", "1"], ["put", "MAIN", "B", "2"], ["sleep", 0.5]]])
+    S["reg-in-callback"] = dict(base, device=dict(dev), callbacks={"1": [[["reg", 2], ["unreg", 1]]], "2": [[["reg", 1]]]},
+                                threads=[[["put", "MAIN", "A", "1"], ["put", "MAIN", "B", "2"], ["put", "MAIN", "C", "3"], ["sleep", 0.6]]])
+    S["concurrent-close"] = dict(base, device=dict(dev), threads=[[["put", "MAIN", "A", "1"], ["put", "MAIN", "B", "2"], ["join"], ["sleep", 0.3]], [["sleep", 0.05], ["close"]]])
+    S["log"] = dict(base, log_size=3, device=dict(dev), threads=[[["put", "MAIN", "A", "1"], ["snap"], ["sleep", 0.15], ["snap"], ["get", "MAIN", "B"], ["sleep", 0.3], ["snap"]]])
+    S["own-modelname"] = dict(base, device=dict(dev, latency=0.12), threads=[[["get", "SYS", "MODELNAME"], ["sleep", 0.1], ["get", "SYS", "MODELNAME"], ["sleep", 0.6]]])
+    return S
+
+
 def with_second(rng, spec):
     """the same scenario with a second, independent connection (own receiver, own traffic) alive in the same process: anything the first
     connection does must be a matter of its own state only (class-level / module-level state shared between connections shows here)"""
